@@ -28,8 +28,9 @@ printf '%s\n' "${list[@]}" | xargs -P "$P" -I{} bash -c '
   IFS="|" read -r n patch checks <<< "{}"
   res=$(./tools/withmutant.sh "$patch" $checks 2>&1)
   caught=no; echo "$res" | grep -q "^VIOLATION" && caught=yes
+  echo "$res" | grep -q "patch does not apply" && caught=PATCH-DOES-NOT-APPLY
   echo "$n checks=[$checks] caught=$caught $(echo "$res" | grep -c "^VIOLATION") violation lines; $(echo "$res" | grep "exit=" | tr "\n" " ")" > '"$out"'/$n.txt
   cat '"$out"'/$n.txt'
 echo "=== not caught:"
-grep -l "caught=no" "$out"/*.txt 2>/dev/null | xargs -r -n1 basename | sed 's/.txt$//'
+grep -lE "caught=(no|PATCH)" "$out"/*.txt 2>/dev/null | xargs -r -n1 basename | sed 's/.txt$//'
 rm -rf "$out"
